@@ -29,13 +29,13 @@ impl Bytes {
     #[verifier::external_body]
     pub fn as_ref(&self) -> (r: &[u8]) ensures r@ == bytes_view(*self) { unimplemented!() }
 }
-#[verifier::external_body]
-pub struct Captured { _o: u8 }
-pub uninterp spec fn cap_view(c: Captured) -> Seq<u8>;
+// bcder::Captured (stand-in + `captured_view`), `der_len`, `set_of_encoding`, `SignedAttrs::view`:
+// the vocabulary of SignedAttrs::encode_verify, shared with unit sigattrs which proves it
+//@include shared/cms_vocab.v.rs
 impl Captured {
     /// AsRef<[u8]> for Captured
     #[verifier::external_body]
-    pub fn as_ref(&self) -> (r: &[u8]) ensures r@ == cap_view(*self) { unimplemented!() }
+    pub fn as_ref(&self) -> (r: &[u8]) ensures r@ == captured_view(*self) { unimplemented!() }
 }
 #[verifier::external_body]
 #[verifier::reject_recursive_types(T)]
@@ -156,7 +156,8 @@ pub mod tm {
     #[verifier::external_body]
     #[derive(Clone, Copy, PartialEq, Eq, PartialOrd, Ord)]
     pub struct Time { _o: u8 }
-    pub uninterp spec fn at(t: Time) -> int;
+    /// the instant a Time denotes (same abstraction as unit validity: tat(t) = at(t.0))
+    pub uninterp spec fn tat(t: Time) -> int;
     pub open spec fn int_cmp(a: int, b: int) -> Ordering {
         if a < b { Ordering::Less } else if a == b { Ordering::Equal } else { Ordering::Greater }
     }
@@ -170,16 +171,17 @@ pub mod tm {
         ensures #[trigger] <Time as PartialOrdSpec>::obeys_partial_cmp_spec() {}
     #[verifier::external_body]
     pub broadcast proof fn axiom_time_cmp(a: Time, b: Time)
-        ensures #[trigger] a.partial_cmp_spec(&b) == Some(int_cmp(at(a), at(b))) {}
+        ensures #[trigger] a.partial_cmp_spec(&b) == Some(int_cmp(tat(a), tat(b))) {}
 }
-pub use tm::{Time, at};
+pub use tm::{Time, tat};
 //@item src/repository/x509.rs :: pub struct Validity pubfields keepderive=Clone,Copy
+// `in_window` -- shared with unit validity
+//@include shared/time_vocab.v.rs
 impl Validity {
-    /// proved in unit validity: Ok <=> not_before <= now <= not_after
-    #[verifier::external_body]
+    /// contract link: proved in unit validity (Ok <=> not_before <= now <= not_after), text taken from there
+    //@stub validity :: impl Validity :: verify_at
     pub fn verify_at(self, now: Time) -> (r: Result<(), ValidityPeriodError>)
-        ensures r.is_ok() == (at(self.not_before) <= at(now) <= at(self.not_after))
-    { unimplemented!() }
+    //@end
 }
 //@item src/repository/x509.rs :: pub struct ValidityPeriodError pubfields keepderive=Clone,Copy
 impl vstd::std_specs::convert::FromSpecImpl<ValidityPeriodError> for VerificationError {
@@ -203,28 +205,16 @@ impl<Alg> SignedData<Alg> {
 impl<Alg: SignatureAlgorithm> SignedData<Alg> {
     //@fn src/repository/x509.rs :: impl<Alg: SignatureAlgorithm> SignedData<Alg> :: verify_signature
     //@spec
-        ensures r.is_ok() == sig_ok(*public_key, cap_view(self.data), self.signature),
+        ensures r.is_ok() == sig_ok(*public_key, captured_view(self.data), self.signature),
     //@/spec
     //@end
 }
 //@item src/repository/sigobj.rs :: pub struct SignedAttrs pubfields
-/// DER length octets (definite form, at most two length octets)
-pub open spec fn der_len(n: nat) -> Seq<u8> {
-    if n < 128 { seq![n as u8] }
-    else if n < 0x100 { seq![0x81u8, n as u8] }
-    else { seq![0x82u8, (n / 256) as u8, (n % 256) as u8] }
-}
-/// the octets the CMS signature is computed over: SET OF tag, DER length, all captured attributes
-pub open spec fn encode_verify_spec(attrs: Seq<u8>) -> Seq<u8> {
-    seq![0x31u8] + der_len(attrs.len()) + attrs
-}
 impl SignedAttrs {
-    /// proved in unit sigattrs (C02); the length bound is established by the decoder
-    #[verifier::external_body]
+    /// contract link: proved in unit sigattrs (C02); the length bound is established by the decoder
+    //@stub sigattrs :: impl SignedAttrs :: encode_verify
     pub fn encode_verify(&self) -> (r: Vec<u8>)
-        requires cap_view(self.0).len() <= 0xFFFF,
-        ensures r@ == encode_verify_spec(cap_view(self.0)),
-    { unimplemented!() }
+    //@end
 }
 //@item src/repository/sigobj.rs :: pub struct MessageDigest pubfields
 impl MessageDigest {
@@ -330,7 +320,7 @@ pub open spec fn aki_matches(aki: Option<KeyIdentifier>, issuer: PublicKey) -> b
     aki matches Some(a) ==> a == ski_of(issuer)
 }
 pub open spec fn window(nb: Time, when: Time, na: Time) -> bool {
-    at(nb) <= at(when) <= at(na)
+    tat(nb) <= tat(when) <= tat(na)
 }
 /// EE identity certificate valid under the peer key `issuer` at `when`
 pub open spec fn ee_accept(c: IdCert, issuer: PublicKey, when: Time) -> bool {
@@ -338,7 +328,7 @@ pub open spec fn ee_accept(c: IdCert, issuer: PublicKey, when: Time) -> bool {
     &&& window(c.tbs.validity.not_before, when, c.tbs.validity.not_after)
     &&& aki_matches(c.tbs.authority_key_id, issuer)
     &&& c.tbs.basic_ca != Some(true)
-    &&& sig_ok(issuer, cap_view(c.signed_data.data), c.signed_data.signature)
+    &&& sig_ok(issuer, captured_view(c.signed_data.data), c.signed_data.signature)
 }
 /// TA identity certificate acceptable at `now` (RFC 8183 BPKI TA, as coded)
 pub open spec fn ta_accept(c: IdCert, now: Time) -> bool {
@@ -346,7 +336,7 @@ pub open spec fn ta_accept(c: IdCert, now: Time) -> bool {
     &&& c.tbs.basic_ca == Some(true)
     &&& window(c.tbs.validity.not_before, now, c.tbs.validity.not_after)
     &&& (c.tbs.authority_key_id == Some(c.tbs.subject_key_id)
-            ==> sig_ok(c.tbs.subject_public_key_info, cap_view(c.signed_data.data), c.signed_data.signature))
+            ==> sig_ok(c.tbs.subject_public_key_info, captured_view(c.signed_data.data), c.signed_data.signature))
 }
 
 impl IdCert {
@@ -388,7 +378,7 @@ impl IdCert {
 
     //@fn src/ca/idcert.rs :: impl IdCert :: verify_signature
     //@spec
-        ensures r.is_ok() == sig_ok(*public_key, cap_view(self.signed_data.data), self.signed_data.signature),
+        ensures r.is_ok() == sig_ok(*public_key, captured_view(self.signed_data.data), self.signed_data.signature),
     //@/spec
     //@end
 }
@@ -405,14 +395,14 @@ impl RevokedCertificates {
     /// assumed: the body is a bcder decode closure walking the captured list (not decided here)
     #[verifier::external_body]
     pub fn contains(&self, serial: Serial) -> (r: bool)
-        ensures r == revoked(cap_view(self.0), serial)
+        ensures r == revoked(captured_view(self.0), serial)
     { unimplemented!() }
 }
 
 /// the embedded CRL is valid under the peer key `issuer` at `when`
 pub open spec fn crl_accept(c: SignedMessageCrl, issuer: PublicKey, when: Time) -> bool {
     &&& c.tbs.signature == c.signed_data.signature.algorithm
-    &&& sig_ok(issuer, cap_view(c.signed_data.data), c.signed_data.signature)
+    &&& sig_ok(issuer, captured_view(c.signed_data.data), c.signed_data.signature)
     &&& window(c.tbs.this_update, when, c.tbs.next_update)
     &&& aki_matches(c.tbs.authority_key_id, issuer)
 }
@@ -423,7 +413,7 @@ pub open spec fn tbs_crl_accept(c: SignedMessageTbsCrl, issuer: PublicKey, when:
 /// CMS signature: digest attribute matches the content, signature over all signed attributes
 pub open spec fn cms_sig_accept(m: SignedMessage) -> bool {
     &&& bytes_view(m.message_digest.0) == sha256(os_view(m.content))
-    &&& sig_ok(m.ee_cert.tbs.subject_public_key_info, encode_verify_spec(cap_view(m.signed_attrs.0)), m.signature)
+    &&& sig_ok(m.ee_cert.tbs.subject_public_key_info, set_of_encoding(captured_view(m.signed_attrs.0)), m.signature)
 }
 /// C10: the exact acceptance condition
 pub open spec fn msg_accept(m: SignedMessage, issuer: PublicKey, when: Time) -> bool {
@@ -431,11 +421,11 @@ pub open spec fn msg_accept(m: SignedMessage, issuer: PublicKey, when: Time) -> 
     &&& cms_sig_accept(m)
     &&& ee_accept(m.ee_cert, issuer, when)
     &&& crl_accept(m.crl, issuer, when)
-    &&& !revoked(cap_view(m.crl.tbs.revoked_certs.0), m.ee_cert.tbs.serial_number)
+    &&& !revoked(captured_view(m.crl.tbs.revoked_certs.0), m.ee_cert.tbs.serial_number)
 }
 /// established by the decoder (SignedAttrs::take_from_with_mode rejects longer sets; unit sigattrs)
 pub open spec fn msg_wf(m: SignedMessage) -> bool {
-    cap_view(m.signed_attrs.0).len() <= 0xFFFF
+    captured_view(m.signed_attrs.0).len() <= 0xFFFF
 }
 
 pub mod lem {
@@ -524,7 +514,7 @@ impl SignedMessageCrl {
 
     //@fn src/ca/sigmsg.rs :: impl SignedMessageCrl :: verify_not_revoked
     //@spec
-        ensures r.is_ok() == !revoked(cap_view(self.tbs.revoked_certs.0), id_cert.tbs.serial_number),
+        ensures r.is_ok() == !revoked(captured_view(self.tbs.revoked_certs.0), id_cert.tbs.serial_number),
     //@/spec
     //@end
 }
@@ -544,18 +534,18 @@ proof fn lemma_single_violation_rejected(m: SignedMessage, issuer: PublicKey, wh
     ensures
         m.sid != m.ee_cert.tbs.subject_key_id ==> !msg_accept(m, issuer, when),
         bytes_view(m.message_digest.0) != sha256(os_view(m.content)) ==> !msg_accept(m, issuer, when),
-        !sig_ok(m.ee_cert.tbs.subject_public_key_info, seq![0x31u8] + der_len(cap_view(m.signed_attrs.0).len()) + cap_view(m.signed_attrs.0), m.signature)
+        !sig_ok(m.ee_cert.tbs.subject_public_key_info, seq![0x31u8] + der_len(captured_view(m.signed_attrs.0).len() as int) + captured_view(m.signed_attrs.0), m.signature)
             ==> !msg_accept(m, issuer, when),
         m.ee_cert.tbs.subject_key_id != ski_of(m.ee_cert.tbs.subject_public_key_info) ==> !msg_accept(m, issuer, when),
-        at(when) < at(m.ee_cert.tbs.validity.not_before) || at(when) > at(m.ee_cert.tbs.validity.not_after) ==> !msg_accept(m, issuer, when),
+        tat(when) < tat(m.ee_cert.tbs.validity.not_before) || tat(when) > tat(m.ee_cert.tbs.validity.not_after) ==> !msg_accept(m, issuer, when),
         (m.ee_cert.tbs.authority_key_id matches Some(a) && a != ski_of(issuer)) ==> !msg_accept(m, issuer, when),
         m.ee_cert.tbs.basic_ca == Some(true) ==> !msg_accept(m, issuer, when),
-        !sig_ok(issuer, cap_view(m.ee_cert.signed_data.data), m.ee_cert.signed_data.signature) ==> !msg_accept(m, issuer, when),
+        !sig_ok(issuer, captured_view(m.ee_cert.signed_data.data), m.ee_cert.signed_data.signature) ==> !msg_accept(m, issuer, when),
         m.crl.tbs.signature != m.crl.signed_data.signature.algorithm ==> !msg_accept(m, issuer, when),
-        !sig_ok(issuer, cap_view(m.crl.signed_data.data), m.crl.signed_data.signature) ==> !msg_accept(m, issuer, when),
-        at(when) < at(m.crl.tbs.this_update) || at(when) > at(m.crl.tbs.next_update) ==> !msg_accept(m, issuer, when),
+        !sig_ok(issuer, captured_view(m.crl.signed_data.data), m.crl.signed_data.signature) ==> !msg_accept(m, issuer, when),
+        tat(when) < tat(m.crl.tbs.this_update) || tat(when) > tat(m.crl.tbs.next_update) ==> !msg_accept(m, issuer, when),
         (m.crl.tbs.authority_key_id matches Some(a) && a != ski_of(issuer)) ==> !msg_accept(m, issuer, when),
-        revoked(cap_view(m.crl.tbs.revoked_certs.0), m.ee_cert.tbs.serial_number) ==> !msg_accept(m, issuer, when),
+        revoked(captured_view(m.crl.tbs.revoked_certs.0), m.ee_cert.tbs.serial_number) ==> !msg_accept(m, issuer, when),
 {}
 
 // ---- vacuity guards -------------------------------------------------------------------------
@@ -567,7 +557,7 @@ proof fn reach_msg_accept(m: SignedMessage, issuer: PublicKey, when: Time)
         cms_sig_accept(m),
         ee_accept(m.ee_cert, issuer, when),
         crl_accept(m.crl, issuer, when),
-        !revoked(cap_view(m.crl.tbs.revoked_certs.0), m.ee_cert.tbs.serial_number),
+        !revoked(captured_view(m.crl.tbs.revoked_certs.0), m.ee_cert.tbs.serial_number),
     ensures msg_accept(m, issuer, when)
 {}
 
